@@ -292,7 +292,7 @@ func TestVerif_C11_policy(t *testing.T) {
 	s := c11New(t, "policy",
 		"compositions of 1–4 policies (nil, No, Max around len(via), SameHost, SameDomain, AllowedHost/Domain with 0–3 entries written as other spellings of the hosts involved, AlwaysCopy with 0–3 header names in either case) evaluated through Client.httpClient.CheckRedirect on (req host, via of 1..limit+1 hosts) pairs that are related spellings/near misses; request and via[0] headers random subsets incl. a non-canonical map key; oracle: decision from the net/url host/domain oracle, first refusal wins; non-trivial = ≥1 host policy or copy policy present")
 	r := s.Rand()
-	hdrPool := []string{"Authorization", "Cookie", "X-Custom", "X-Multi", "X-Other", "Www-Authenticate"}
+	hdrPool := []string{"Authorization", "Cookie", "X-Custom", "X-Multi", "X-Other", "Www-Authenticate", "Host", "Referer"}
 	c := C()
 	var prevCl *Client
 	var prevPs []c11Pol
@@ -340,15 +340,27 @@ func TestVerif_C11_policy(t *testing.T) {
 			}
 			return h
 		}
+		// Everything a *http.Request carries besides URL.Host is a DECOY for the host policies: the
+		// Host field (what a Host header override sets), userinfo, scheme, method, path, the
+		// response that caused the redirect. They are drawn from the same family of related
+		// spellings / near misses as the URL hosts, so that a policy reading any of them instead of
+		// URL.Host decides differently on many cases.
+		decoyPool := []c11Auth{a, b}
 		hreq := &http.Request{Method: "GET", URL: &url.URL{Scheme: "http", Host: req, Path: "/"}, Header: toHeader(rh)}
+		c11Decoy(r, hreq, decoyPool, s)
 		var hvia []*http.Request
 		for j, v := range via {
 			q := &http.Request{Method: "GET", URL: &url.URL{Scheme: "http", Host: v, Path: "/"}, Header: http.Header{}}
 			if j == 0 {
 				q.Header = toHeader(vh)
 			}
+			c11Decoy(r, q, decoyPool, s)
+			if j > 0 {
+				q.Response = &http.Response{StatusCode: 302, Request: hvia[j-1]}
+			}
 			hvia = append(hvia, q)
 		}
+		hreq.Response = &http.Response{StatusCode: 302, Request: hvia[len(hvia)-1]}
 		nontriv := false
 		// Either configure the shared client directly, or reach the policy through a family of
 		// clients grown by Clone / SetRedirectPolicy calls: whatever the history, the client
@@ -370,7 +382,7 @@ func TestVerif_C11_policy(t *testing.T) {
 			var j int
 			j, scen = fam.pick(r)
 			cl, ps = fam.clients[j], fam.want[j]
-			line0 = "c11clone " + fam.encOps() + " " + strconv.Itoa(j)
+			line0 = "c11fam " + fam.encOps() + " " + strconv.Itoa(j) + " c11policyx"
 			s.Count(scen)
 			if fam.emptied {
 				s.Count("family:empty-set-call")
@@ -382,7 +394,7 @@ func TestVerif_C11_policy(t *testing.T) {
 				real[j] = p.real()
 			}
 			c.SetRedirectPolicy(real...)
-			line0 = "c11policy " + c11EncPols(ps)
+			line0 = "c11policyx " + c11EncPols(ps)
 			s.Count("direct")
 		}
 		prevCl, prevPs, prevLine0, prevScen = cl, ps, line0, scen
@@ -424,11 +436,16 @@ func TestVerif_C11_policy(t *testing.T) {
 		}
 		s.Count("decision:" + c11DecisionName[dec])
 		probes := append([]string{"x-custom"}, hdrPool...)
-		line := line0 + " " + verifh.Hex(req) + " " + verifh.HexList(via) + " " +
+		encVia := make([]string, len(hvia))
+		for j, q := range hvia {
+			encVia[j] = c11EncReq(q)
+		}
+		line := line0 + " " + c11EncReq(hreq) + " " + strings.Join(encVia, ";") + " " +
 			c11EncHeaders(rh) + " " + c11EncHeaders(vh) + " " + verifh.HexList(probes)
 		ans := c11DecisionName[dec] + " " + c11ShowProbes(func(k string) []string { return hreq.Header.Values(k) }, probes)
 		s.Case(line, ans, dec == want, class, nontriv,
 			scen+c11ShowPols(ps)+" req="+req+" via="+strings.Join(via, ",")+" -> "+c11DecisionName[dec])
 	}
-	s.FinishRequire("direct", "reused-policy-instance", "family:original", "family:set-on-clone", "family:clone-of-clone-inherits", "family:clone-inherits,parent-reconfigured-later", "family:clone-inherits", "family:empty-set-call", "pol:nil", "pol:no", "pol:max", "pol:samehost", "pol:samedomain", "pol:ahost", "pol:adomain", "pol:copy", "decision:allow", "decision:deny", "decision:uselast")
+	s.FinishRequire("direct", "reused-policy-instance", "family:original", "family:set-on-clone", "family:clone-of-clone-inherits", "family:clone-inherits,parent-reconfigured-later", "family:clone-inherits", "family:empty-set-call", "pol:nil", "pol:no", "pol:max", "pol:samehost", "pol:samedomain", "pol:ahost", "pol:adomain", "pol:copy", "decision:allow", "decision:deny", "decision:uselast",
+		"decoy:host-field", "decoy:host-field=other-authority", "decoy:userinfo", "decoy:https", "decoy:method")
 }
